@@ -527,4 +527,6 @@ def build(ctx):
         return be.prove_smt(tm.eq(obj.fields["m_i"], ONE), hyp, timeout_ms=20000)
 
     obs.append(Obligation("canary.smt", "CANARY (must be refuted): with user alpha m_i == 1 also between table nodes", canary, [INIT], "SMT", expect=be.REFUTED))
+    if ctx.tier == "thorough":
+        obs.append(lean_obligation(ctx, ['pyvc_chord_between', 'pyvc_am_hm', 'pyvc_monotone_sequence']))
     return obs
